@@ -79,6 +79,7 @@ pub struct Recorder {
     pub fault_hits: AtomicI64,
     /// sequence number of the injected fault (0 = none yet)
     pub fault_seq: AtomicU64,
+    armed: AtomicBool,
 }
 
 impl Recorder {
@@ -91,6 +92,7 @@ impl Recorder {
             fault_count: AtomicU64::new(0),
             fault_hits: AtomicI64::new(0),
             fault_seq: AtomicU64::new(0),
+            armed: AtomicBool::new(true),
         })
     }
 
@@ -100,6 +102,11 @@ impl Recorder {
 
     pub fn uninstall() {
         pearl::verif::set_tap(None);
+    }
+
+    /// disarm / re-arm the fault without resetting its occurrence counter
+    pub fn set_armed(&self, on: bool) {
+        self.armed.store(on, Ordering::SeqCst);
     }
 
     pub fn set_fault(&self, plan: Option<FaultPlan>) {
@@ -148,7 +155,7 @@ impl Tap for Recorder {
         // fault decision first (so that the recorded event carries the outcome)
         let mut verdict = Verdict::Proceed;
         {
-            let plan = self.fault.lock().unwrap().clone();
+            let plan = if self.armed.load(Ordering::SeqCst) { self.fault.lock().unwrap().clone() } else { None };
             if let Some(p) = plan {
                 let op_match = p.op == opn;
                 let kind_match = p.kind == "any" || p.kind == kind;
